@@ -142,6 +142,28 @@ func (m *Propose) Event(c *vnet.Cluster, e *vnet.Event) {
 				}
 			}
 		}
+	case vnet.KProcessBlock, vnet.KProcessPreBlock:
+		// what the primary hands to the application for the view it proposed in is its proposal
+		if !s.made || !s.sent || d.BlockIndex != s.h || d.ViewNumber != s.v || !d.IsPrimary() {
+			return
+		}
+		var hd *vnet.Header
+		if e.Blk != nil {
+			hd = &e.Blk.Header
+		} else if e.PB != nil {
+			hd = &e.PB.Header
+		}
+		if hd == nil {
+			return
+		}
+		m.inc("primary-handovers-checked")
+		txs := hd.TxH
+		if e.Blk != nil && len(txs) > len(s.hashes) && isAMEV(c, s.h) {
+			txs = txs[:len(s.hashes)] // the final anti-MEV block appends the derived envelope transaction
+		}
+		if hd.Ts != s.ts || hd.Nonce != s.nonce || !eqHashes(txs, s.hashes) || hd.Idx != s.h {
+			m.fail(c, "primary-handover-differs-from-proposal", "n%d handed over a (pre)block with ts=%d nonce=%d tx=%d for (%d,%d); its proposal had ts=%d nonce=%d tx=%d", n.ID, hd.Ts, hd.Nonce, len(hd.TxH), s.h, s.v, s.ts, s.nonce, len(s.hashes))
+		}
 	case vnet.KNewBlock, vnet.KNewPreBlock:
 		if !s.made || !s.sent || d.BlockIndex != s.h || d.ViewNumber != s.v || !d.IsPrimary() {
 			return
